@@ -1590,7 +1590,7 @@ func corner() []*Case {
 			{K: "t", Obj: 0, Az: 1, Key: 1, Now: 2, How: "ok"}, {K: "t", Obj: 1, Az: 0, Key: 2, Now: 3, How: "ok"}, {K: "o", Now: 4}, {K: "o", Obj: 1, Now: 4},
 			{K: "f", Now: 5, CSR: "match", Key: 1}, {K: "f", Now: 6, CSR: "match", Key: 2}, {K: "f", Obj: 1, Now: 7, CSR: "match", Key: 1}}},
 		// second shape: the key recorded on an already valid authorization is replaced by an attestation for
-		// another challenge of the account sent through its URL (theorem fp_overwrite_valid)
+		// another challenge of the account sent through its URL (theorem fp_overwrite_valid_historic; since e055659 that response is answered 401)
 		{Ops: []Op{{K: "n", IDs: []string{"permanent-identifier:1234567"}}, {K: "t", Obj: 0, Az: 0, Key: 1, Now: 1, How: "ok"}, {K: "o", Now: 2},
 			{K: "n", Now: 3, IDs: []string{"permanent-identifier:42"}}, {K: "t", Obj: 1, Az: 0, Key: 2, Now: 4, How: "ok"}, {K: "f", Now: 5, CSR: "match", Key: 1}, {K: "f", Now: 6, CSR: "match", Key: 2}}},
 		// lost authorization write while the ORDER is evaluated (poll, finalize, orders list, new-order refresh)
